@@ -112,6 +112,30 @@ def keff_lines(kef):
             '  \t  full combined estimator  %s\t%s' % tuple(kef['full']), '', '', '']
 
 
+def mesh_lines(mesh, used):
+    '''mesh response (layout of box_dyn.res.ceav5 / tungstene.d.res.ceav5)'''
+    out = response_head(mesh)
+    out += ['\t scoring mode : %s' % mesh['mode'], '\t scoring zone : \t Results on a mesh: ',
+            '\t Cell   \t  tally   \t  sigma (percent)', '', '']
+    nu, nv, nw = mesh['shape']
+    cells = [(i, j, k) for i in range(nu) for j in range(nv) for k in range(nw)]
+
+    def block(vals):
+        return ['\t (%d,%d,%d)\t %s\t%s' % (c + tuple(v)) for c, v in zip(cells, vals)]
+    for k, stp in enumerate(mesh['steps']):
+        if mesh['with_time']:
+            out += ['\t TIME STEP NUMBER: %d' % k, '\t ------------------------------------',
+                    '\t\t time min. = %s' % stp['tmin'], '\t\t time max. = %s' % stp['tmax'],
+                    '\t\t\t (in neut.cm.s^-1)', '']
+        for rng_ in stp['ranges']:
+            out += ['Energy range (in MeV): %s - %s' % (rng_['a'], rng_['b'])] + block(rng_['cells']) + ['']
+        if stp['eint'] is not None:
+            out += ['', 'ENERGY INTEGRATED RESULTS :'] + block(stp['eint']) + ['']
+        out += ['number of batches used: %d\t%s\t%s' % (used, stp['integ'][0], stp['integ'][1]), '']
+    out += ['']
+    return out
+
+
 def edition_lines(edi):
     out = ['*' * 57, '', ' RESULTS ARE GIVEN FOR SOURCE INTENSITY : 1.000000e+00', '*' * 57, '', '',
            ' Mean weight leakage = 7.111140e+02\t sigma = 4.388024e+00\t sigma% = 6.170634e-01', '', '',
@@ -126,6 +150,8 @@ def edition_lines(edi):
                 out += spectrum_lines(stp['rows'], edi['disc'])
                 out += integrated_lines(stp['integ'], edi['disc'], edi['used'])
             out += ['']
+    for mesh in edi.get('meshes', []):
+        out += mesh_lines(mesh, edi['used'])
     for gen in edi['generic']:
         out += generic_lines(gen, edi['used'])
     if edi.get('keff'):
@@ -231,6 +257,148 @@ def draw_doc(rng):
                          'time': rng.randint(0, 5000), 'responses': responses, 'generic': generic,
                          'keff': keff})
     return {'editions': editions}
+
+
+def draw_mesh(rng, ires):
+    '''a mesh score: cells x energy ranges x time steps, each axis printed upwards
+    or downwards independently, with or without the energy-integrated mesh'''
+    shape = rng.choice([(1, 1, 3), (2, 1, 2), (1, 2, 2), (2, 2, 1), (1, 1, 1), (2, 2, 2)])
+    ncell = shape[0] * shape[1] * shape[2]
+    bounds = edges(rng, rng.choice([1, 2, 3]), -11, 1.3)
+    groups = [(bounds[i], bounds[i + 1]) for i in range(len(bounds) - 1)]
+    if rng.random() < 0.5:
+        groups = [(b, a) for a, b in reversed(groups)]
+    with_time = rng.random() < 0.7
+    nsteps = rng.choice([2, 2, 3, 4]) if with_time else 1
+    if with_time:
+        tedges = edges(rng, nsteps, -9, 3)
+        pairs = [(tedges[i], tedges[i + 1]) for i in range(nsteps)]
+        if rng.random() < 0.5:
+            pairs.reverse()
+    else:
+        pairs = [(None, None)]
+    with_eint = rng.random() < 0.7
+    steps = []
+    for tmin, tmax in pairs:
+        ranges = [{'a': a, 'b': b, 'cells': [[numeral(rng), numeral(rng, 'sigma')] for _ in range(ncell)]}
+                  for a, b in groups]
+        eint = [[numeral(rng), numeral(rng, 'sigma')] for _ in range(ncell)] if with_eint else None
+        steps.append({'tmin': tmin, 'tmax': tmax, 'ranges': ranges, 'eint': eint,
+                      'integ': [numeral(rng), numeral(rng, 'sigma')]})
+    return {'function': 'FLUX', 'name': 'mesh_resp_%d' % ires, 'score_name': 'mesh_score_%d' % ires,
+            'decoupage': 'GRID_%d' % ires, 'mode': 'SCORE_TRACK', 'shape': list(shape),
+            'with_time': with_time, 'steps': steps}
+
+
+def draw_mesh_doc(rng):
+    doc = draw_doc(rng)
+    for edi in doc['editions']:
+        edi['responses'] = edi['responses'][:rng.choice([0, 1])]
+    nmesh = rng.choice([1, 1, 2])
+    protos = [draw_mesh(rng, k) for k in range(nmesh)]
+    for num, edi in enumerate(doc['editions']):
+        edi['meshes'] = protos if num == 0 else [draw_mesh(rng, k) for k in range(nmesh)]
+    return doc
+
+
+def expected_mesh(mesh):
+    '''value[u, v, w, i, j] = the tally printed for cell (u, v, w) in the energy
+    range whose bounds are {ebins[i], ebins[i+1]} of the time step whose bounds
+    are (tbins[j], tbins[j+1])'''
+    nu, nv, nw = mesh['shape']
+    first = mesh['steps'][0]['ranges']
+    eset = sorted(set(float(r['a']) for r in first) | set(float(r['b']) for r in first))
+    if mesh['with_time']:
+        tset = sorted(set(float(s['tmin']) for s in mesh['steps']) | set(float(s['tmax']) for s in mesh['steps']))
+        ntim = len(tset) - 1
+    else:
+        tset, ntim = [], 1
+    shape = (nu, nv, nw, len(eset) - 1, ntim)
+    val, err = np.full(shape, np.nan), np.full(shape, np.nan)
+    ival, ierr = np.full((nu, nv, nw, ntim), np.nan), np.full((nu, nv, nw, ntim), np.nan)
+    sval, serr = np.full((ntim,), np.nan), np.full((ntim,), np.nan)
+    cells = [(i, j, k) for i in range(nu) for j in range(nv) for k in range(nw)]
+
+    def perc(sig, sco):
+        return np.float64(float(sig)) * np.float64(float(sco)) * 0.01
+    for stp in mesh['steps']:
+        jtime = tset.index(float(stp['tmin'])) if mesh['with_time'] else 0
+        for rng_ in stp['ranges']:
+            ien = eset.index(min(float(rng_['a']), float(rng_['b'])))
+            for cell, (sco, sig) in zip(cells, rng_['cells']):
+                val[cell + (ien, jtime)] = float(sco)
+                err[cell + (ien, jtime)] = perc(sig, sco)
+        if stp['eint'] is not None:
+            for cell, (sco, sig) in zip(cells, stp['eint']):
+                ival[cell + (jtime,)] = float(sco)
+                ierr[cell + (jtime,)] = perc(sig, sco)
+        sval[jtime] = float(stp['integ'][0])
+        serr[jtime] = perc(stp['integ'][1], stp['integ'][0])
+    return {'ebins': eset, 'tbins': tset, 'val': val, 'err': err, 'ival': ival, 'ierr': ierr,
+            'sval': sval, 'serr': serr}
+
+
+def mesh_oracle(ctx, mesh, res, fail):
+    exp = expected_mesh(mesh)
+    lab = mesh['name']
+    dset = res.get('score')
+    want_shape = exp['val'].shape + (1, 1)
+    if dset is None or dset.value.shape != want_shape:
+        fail(f'mesh {lab}: score shape {getattr(getattr(dset, "value", None), "shape", None)}, expected '
+             f'{want_shape}', 't4-mesh-shape')
+        return
+    if not same(dset.value, exp['val']):
+        fail(f'mesh {lab}: a tally is not the one printed for its cell, energy range and time step',
+             't4-mesh-value')
+    if not same(dset.error, exp['err']):
+        fail(f'mesh {lab}: error is not value * sigma% * 0.01', 't4-mesh-error')
+    if not same(dset.bins['e'], exp['ebins']) or not same(dset.bins['t'], exp['tbins']):
+        fail(f'mesh {lab}: energy/time bins are not the printed bounds in increasing order', 't4-mesh-bins')
+    for axis, num in zip('uvw', mesh['shape']):
+        if not same(dset.bins[axis], list(range(num))):
+            fail(f'mesh {lab}: space bins {axis}', 't4-mesh-bins')
+    iset = res.get('score_eintegrated')
+    if mesh['steps'][0]['eint'] is not None:
+        if iset is None or iset.value.shape != exp['ival'].shape[:3] + (1, exp['ival'].shape[3], 1, 1):
+            fail(f'mesh {lab}: no / misshapen energy-integrated mesh', 't4-mesh-eintegrated')
+        else:
+            if not same(iset.value, exp['ival']) or not same(iset.error, exp['ierr']):
+                fail(f'mesh {lab}: energy-integrated tally of a cell is not the one printed for that cell '
+                     'and time step', 't4-mesh-eintegrated')
+            if not same(iset.bins['t'], exp['tbins']) or \
+                    not same(iset.bins['e'], [exp['ebins'][0], exp['ebins'][-1]]):
+                fail(f'mesh {lab}: bins of the energy-integrated mesh', 't4-mesh-eintegrated')
+    elif iset is not None:
+        fail(f'mesh {lab}: an energy-integrated mesh that was not printed', 't4-mesh-eintegrated')
+    sset = res.get('score_seintegrated' if mesh['with_time'] else 'score_integrated')
+    if sset is None or not same(sset.value, exp['sval']) or not same(sset.error, exp['serr']):
+        fail(f'mesh {lab}: space and energy integrated result differs from the printed one',
+             't4-mesh-integrated')
+    elif mesh['with_time'] and not same(sset.bins['t'], exp['tbins']):
+        fail(f'mesh {lab}: time bins of the integrated result', 't4-mesh-integrated')
+
+
+class CellView:
+    '''one cell of a mesh dataset seen as an energy x time spectrum (for the Coq model)'''
+
+    def __init__(self, dset, cell):
+        self.value = np.asarray(dset.value)[cell]
+        self.error = np.asarray(dset.error)[cell]
+        self.bins = dset.bins
+
+
+def mesh_cell_case(mesh, res, icell):
+    '''the energy x time plane of one cell as a case of the post-grammar model'''
+    nu, nv, nw = mesh['shape']
+    cell = (icell // (nv * nw), (icell // nw) % nv, icell % nw)
+    zone = {'with_time': mesh['with_time'], 'steps': [
+        {'tmin': stp['tmin'], 'tmax': stp['tmax'],
+         'rows': [[r['a'], r['b'], r['cells'][icell][0], r['cells'][icell][1]] for r in stp['ranges']],
+         'integ': None if stp['eint'] is None else stp['eint'][icell]} for stp in mesh['steps']]}
+    view = {'score': CellView(res['score'], cell)}
+    if mesh['with_time'] and mesh['steps'][0]['eint'] is not None and 'score_eintegrated' in res:
+        view['score_eintegrated'] = CellView(res['score_eintegrated'], cell)
+    return zone_case(zone, view)
 
 
 # --------------------------------------------------------------------------
@@ -350,6 +518,14 @@ def t4_oracle(ctx, edi, browser, case, requested):
                 elif not same(iset.value, exp['ival']) or not same(iset.error, exp['ierr']):
                     fail(f'integrated result of response {resp["name"]} zone {zone["vol"]} differs '
                          'from the printed one (NaN when not converged)', 't4-integrated')
+    for mesh in edi.get('meshes', []):
+        sel = find_items(browser, response_name=mesh['name'], scoring_zone_type='Mesh',
+                         score_name=mesh['score_name'], energy_split_name=mesh['decoupage'])
+        if len(sel) != 1:
+            fail(f'{len(sel)} results for mesh {mesh["name"]}', 't4-missing-result')
+            continue
+        seen += 1
+        mesh_oracle(ctx, mesh, sel[0]['results'], fail)
     for gen in edi['generic']:
         sel = find_items(browser, response_function=gen['function'])
         if len(sel) != 1:
@@ -777,6 +953,51 @@ def run_t4(ctx, nlist, tap=None):
     return cases, index, textcases, textindex
 
 
+def run_t4_mesh(ctx, nlist):
+    '''listings with mesh scores (oracle per cell, energy range and time step;
+    the energy x time plane of sampled cells goes to the post-grammar model)'''
+    from valjean.eponine.tripoli4.parse import Parser
+    rng = ctx.rng
+    head = header(common.REPO)
+    cases, index = [], []
+    for num in range(nlist):
+        doc = draw_mesh_doc(rng)
+        path = os.path.join(ctx.wd(), f't4mesh_{num}.res')
+        with open(path, 'w', encoding='utf-8') as fil:
+            fil.write(listing_text(doc, head))
+        case = {'kind': 't4', 'listing': f'mesh{num}', 'doc': doc}
+        ctx.count('t4_mesh_listings')
+        try:
+            par = Parser(path)
+            for edi in doc['editions']:
+                browser = par.parse_from_number(edi['batch']).to_browser()
+                t4_oracle(ctx, edi, browser, case, edi['batch'])
+                for mesh in edi['meshes']:
+                    ctx.count('t4_mesh_time_%s' % ('none' if not mesh['with_time'] else
+                                                   'down' if float(mesh['steps'][0]['tmin'])
+                                                   > float(mesh['steps'][-1]['tmin']) else 'up'))
+                    ctx.count('t4_mesh_energy_%s' % ('down' if float(mesh['steps'][0]['ranges'][0]['a'])
+                                                     > float(mesh['steps'][0]['ranges'][0]['b']) else 'up'))
+                    ctx.count('t4_mesh_eintegrated_%s' % ('yes' if mesh['steps'][0]['eint'] else 'no'))
+                    sel = find_items(browser, response_name=mesh['name'], scoring_zone_type='Mesh')
+                    if len(sel) == 1 and 'score' in sel[0]['results']:
+                        ncell = mesh['shape'][0] * mesh['shape'][1] * mesh['shape'][2]
+                        for icell in rng.sample(range(ncell), min(2, ncell)):
+                            try:
+                                cases.append(mesh_cell_case(mesh, sel[0]['results'], icell))
+                            except (IndexError, KeyError):
+                                continue        # misshapen result: the oracle has reported it
+                            index.append({'kind': 't4', 'listing': f'mesh{num}', 'edition': edi['batch'],
+                                          'response': mesh['name'], 'zone': f'cell {icell}', 'doc': doc})
+                ctx.case_seen({'kind': 't4mesh', 'listing': num, 'edition': edi['batch']}, True,
+                              sample_every=31)
+        except Exception as exc:  # noqa
+            ctx.oracle_failure(f'parsing raises {type(exc).__name__} on a generated listing with mesh scores '
+                               f':: {num}', case, key='t4-parser-raises')
+        os.unlink(path)
+    return cases, index
+
+
 # --------------------------------------------------------------------------
 # Apollo3: abstract tree -> HDF5 file, ground truth, Coq literal
 
@@ -787,6 +1008,7 @@ def draw_tree(rng):
     '''abstract standard-layout tree: dict of outputs'''
     tree = {}
     for iout in range(rng.choice([1, 1, 2])):
+        oname = rng.choice(['output_%d', 'output_%d', 'output_cœur_%d', 'output_long_name_of_a_calculation_%d']) % iout
         ngr = rng.choice([1, 2, 3, 4])
         zones = {}
         total = {}
@@ -796,8 +1018,12 @@ def draw_tree(rng):
             total[nam] = [rng.uniform(-1, 10) for _ in range(ngr)]
         zones['totaloutput'] = {'total': total}
         for izone in range(rng.choice([1, 2, 3])):
-            zname = rng.choice(['fuel', 'clad', 'mod', 'q', 'Zone_A', 'z']) + str(izone)
-            isotopes = rng.sample(['U235', 'U238', 'Xe135', 'I135', 'Sm149', 'O16', 'H1_H2O'],
+            # labels are arbitrary UTF-8 strings stored as fixed-length bytes: non-ASCII characters,
+            # spaces inside, long names
+            zname = rng.choice(['fuel', 'clad', 'mod', 'q', 'Zone_A', 'z', 'cœur', 'zone réflecteur ',
+                                'a_rather_long_zone_name_for_a_moderator_region_']) + str(izone)
+            isotopes = rng.sample(['U235', 'U238', 'Xe135', 'I135', 'Sm149', 'O16', 'H1_H2O', 'PF_résiduel',
+                                   'H1 in H2O', 'Am242m_état_métastable_with_a_long_name', 'Résidu'],
                                   rng.choice([0, 0, 1, 2, 3]))
             zone = {'flux': [rng.uniform(0, 10) for _ in range(ngr)] if rng.random() < 0.9 else None,
                     'isotopes': isotopes, 'concen': [rng.uniform(1e-6, 1e-1) for _ in isotopes], 'groups': {}}
@@ -830,7 +1056,7 @@ def draw_tree(rng):
                 if rng.random() < 0.85:
                     zone['groups'][iso] = draw_group(False)
             zones[zname] = zone
-        tree[f'output_{iout}'] = {'ng': ngr, 'zones': zones}
+        tree[oname] = {'ng': ngr, 'zones': zones}
     return tree
 
 
@@ -850,7 +1076,8 @@ def write_hdf(tree, path):
             ggeo = geom.create_group(gname)
             ggeo['NZONE'] = np.array([len(znames)], dtype=np.int32)
             ggeo['VOLUME'] = np.array([1.0 + k for k in range(len(znames))], dtype=np.float32)
-            ggeo['ZONENAME'] = np.array([z.encode() for z in znames], dtype='S12')
+            ggeo['ZONENAME'] = np.array([z.encode('utf-8') for z in znames],
+                                        dtype='S%d' % max([12] + [len(z.encode('utf-8')) + 2 for z in znames]))
             gout = hfile.create_group(oname)
             for zname, zone in out['zones'].items():
                 gzone = gout.create_group(zname)
@@ -860,7 +1087,9 @@ def write_hdf(tree, path):
                     continue
                 gzone['NISOT'] = np.array([len(zone['isotopes'])], dtype=np.int32)
                 if zone['isotopes']:
-                    gzone['ISOTOPE'] = np.array([(i + '   ').encode() for i in zone['isotopes']], dtype='S12')
+                    gzone['ISOTOPE'] = np.array(
+                        [(i + '   ').encode('utf-8') for i in zone['isotopes']],
+                        dtype='S%d' % max(12, max(len(i.encode('utf-8')) for i in zone['isotopes']) + 5))
                     gzone['CONCEN'] = np.array(zone['concen'], dtype=np.float64)
                 if zone['flux'] is not None:
                     gzone['FLUX'] = np.array(zone['flux'], dtype=np.float32)
@@ -1104,7 +1333,9 @@ def permuted_isotopes(rng, tree):
 
 
 def draw_user(rng):
-    names = rng.sample(['KEFF_CORE', 'Power_peak', 'rho', 'Mino_RHO', 'Pow_T0.1', 'beta_eff', 'Lambda'],
+    names = rng.sample(['KEFF_CORE', 'Power_peak', 'rho', 'Mino_RHO', 'Pow_T0.1', 'beta_eff', 'Lambda',
+                        'Puissance_cœur', 'PF_résiduel', 'power peak factor', 'β_eff',
+                        'a_very_long_local_value_name_for_the_reactivity_of_the_core'],
                        rng.randint(2, 5))
     return {'layout': rng.choice(['flat', 'group']), 'names': names,
             'values': [rng.uniform(-3, 3) for _ in names]}
@@ -1115,7 +1346,8 @@ def write_user_hdf(user, path):
     with h5py.File(path, 'w') as hfile:
         hfile.create_group('info')['COMMENT'] = np.array([b'user values'], dtype='S16')
         out = hfile.create_group('output')
-        names = np.array([(n + '  ').encode() for n in user['names']], dtype='S16')
+        names = np.array([(n + '  ').encode('utf-8') for n in user['names']],
+                         dtype='S%d' % (max(len(n.encode('utf-8')) for n in user['names']) + 4))
         if user['layout'] == 'flat':
             out['LOCALNAME'] = names
             out['LOCALVALUE'] = np.array(user['values'], dtype=np.float32)
@@ -1287,6 +1519,8 @@ def run(ctx):
         ctx.count('t4_grammar_elements_not_found')
     t4cases, t4index, txcases, txindex = run_t4(ctx, 60 if quick else 1500, tap)
     shcases, shindex = run_shipped(ctx, tap) if tap is not None else ([], [])
+    mcases, mindex = run_t4_mesh(ctx, 24 if quick else 400)
+    t4cases, t4index = t4cases + mcases, t4index + mindex
     apcases, apindex = run_ap3(ctx, 40 if quick else 500)
     run_histories(ctx, 16 if quick else 200)
     shards, indexes = [], []
